@@ -14,6 +14,7 @@ from sismic.model import Event
 
 ID = 'C18'
 LEVEL = 'fault_enumeration'
+RUN_LIMIT_CPU_S = 600     # one run enumerates hundreds of fault positions in the thorough tier
 BUDGET = {'quick': 25, 'thorough': 300}
 BLOCK = 8
 STREAM_ORDER = ['ops', 'guards', 'faults', 'chart', 'cfg']
